@@ -26,6 +26,12 @@ CHECKS = {
          "As C01 for all five loops and several UEs: PDU session identity consistency across 5GSM header / NAS transport IE / NGAP response, prerequisites (session and registration state machine of the AMF), COUNT per UE, GTP address of the response transfer, reported (UE IP, TEID, UPF) = assigned (hook H2), procedure counts = the Min() clamps of the main program."),
  "C19": ("fault enumeration driven by the TLA+ spec: TLC-as-AMF injects close/garbage at every downlink index of real emulator runs; exhaustive TLC model checking of Stg.tla with both fault kinds (FailStopSafe, Terminates)",
          "For every downlink message index of a complete test-mode conversation the specification's AMF closes the association instead of answering, and for every consumed answer it sends bytes Per!PerDecode rejects; TLC judges that the real process exits non-zero in bounded time, prints no banner and reports no session it did not obtain; the abstract model is checked exhaustively for the same properties incl. liveness."),
+ "C11": ("TLA+ trace validation with TLC: SUCI / PLMN encodings judged by Identity.tla (independent decoder + encoder), exhaustive over all 1.1 M PLMNs in the thorough tier",
+         "Every (MCC, MNC) pair is pushed through the emulator's SUCI encoder and the library's PLMN conversion; Identity!SuciDecode must recover MCC/MNC/MSIN, the octets must equal Identity!SuciEncode / PlmnOctets, and the PLMN on the wire (NG Setup, user location) is decoded with the spec's PER decoder."),
+ "C16": ("TLA+ trace validation with TLC: set-level invariants of UePop.tla over recorded CreateUE populations up to 10 000 UEs; exhaustive TLC check of the digit arithmetic (MCUePop)",
+         "Populations created exactly as the UE loops do are judged by UePop.tla: SUPI_i = IMSI + i with the same digits, pairwise distinct, inside the PLMN; RAN-UE-NGAP-IDs pairwise distinct; configured K/OP/OPc; capability bits exactly the algorithms used. On the wire the same is seen by the TLC AMF in C01/C02 (SUCI of UE u)."),
+ "C17": ("TLA+ trace validation with TLC: 3GPP encodings and inverse pairs transcribed in TraceConvert.tla (PCO parser as an explicit state machine)",
+         "S-NSSAI, AMF-ID split, transport layer addresses (IPv4/IPv6/dual, both directions) and protocol configuration options (marshal + parse back) are judged against the TLA+ transcriptions; PLMN conversion with C11."),
 }
 NA = {}
 def main():
